@@ -407,7 +407,10 @@ func runC12(c *Ctx) {
 	allActs := seqInts(len(c12AllActs) + 3)
 	fewActs := []int{3, 13, 10, 4, 19, 17, 20, 21, 22} // steepened sigmoid, linear, tanh, approx sigmoid, step, sign, 3 mixed
 	plans := []c12Plan{{c12Shape{1, 1, 2, 1}, []int{0, 1, 2, 3}, allActs, c12Inputs(1, true)},
-		{c12Shape{2, 1, 1, 1}, []int{0, 1}, fewActs, c12Inputs(1, true)}}
+		{c12Shape{2, 1, 1, 1}, []int{0, 1}, fewActs, c12Inputs(1, true)},
+		{c12Shape{0, 1, 2, 1}, []int{0, 2}, fewActs, c12Inputs(1, true)},
+		{c12Shape{1, 2, 2, 1}, []int{0, 3}, fewActs, c12Inputs(2, false)},
+		{c12Shape{1, 1, 2, 2}, []int{1}, fewActs, c12Inputs(1, true)}}
 	if !c.Quick() {
 		plans = append(plans,
 			c12Plan{c12Shape{0, 1, 2, 1}, []int{0, 1, 2, 3}, allActs, c12Inputs(1, true)},
